@@ -21,6 +21,9 @@ Proof.
     cbn [last] in *. exact Ek.
 Qed.
 
+Lemma last_nonempty_irrel {A} (l : list A) d d' : l <> [] -> last l d = last l d'.
+Proof. induction l as [|x l IH]; [congruence|]. intros _. destruct l; [reflexivity|]. apply IH. discriminate. Qed.
+
 (* what fix_key_path makes of the last part *)
 Lemma fix_key_path_last a l p : fix_key_path (a :: l) = Some p ->
   exists path k, p = path ++ [k] /\ k_key k = k_key (last l a) /\ k_repr k = k_repr (last l a)
@@ -62,9 +65,9 @@ Proof.
   destruct (key_part_exact i a i1 Ea) as (j1 & j2 & w0 & t & w & Hw0 & Ht & Hw & S1 & S2 & S3 & Ea').
   destruct l as [|b l'].
   - (* one part *)
-    inversion R; subst i1; clear R.
+    inversion R; subst; clear R.
     + exists path, k, j1, j1, j2, w0, [], t, w. cbn [last] in *. rewrite Ea' in Er, El. cbn [k_repr k_dotted decor_new d_prefix d_suffix] in Er, El.
-      split; [reflexivity|]. split; [exact Hw0|]. split; [exact Hw|]. split; [exact S1|]. split; [apply splits_nil|]. auto. Show.
+      split; [reflexivity|]. split; [exact Hw0|]. split; [exact Hw|]. split; [exact S1|]. split; [apply splits_nil|]. auto.
     + exists path, k, j1, j1, j2, w0, [], t, w. cbn [last] in *. rewrite Ea' in Er, El. cbn [k_repr k_dotted decor_new d_prefix d_suffix] in Er, El.
       split; [reflexivity|]. split; [exact Hw0|]. split; [exact Hw|]. split; [exact S1|]. split; [apply splits_nil|]. auto.
   - (* several parts *)
@@ -75,4 +78,101 @@ Proof.
     rewrite En in Er, El. rewrite Ea' in El. cbn [k_repr k_dotted decor_new d_prefix d_suffix] in Er, El.
     split; [reflexivity|]. split; [exact Hw0|]. split; [exact Hvn|]. split; [exact S1|].
     split; [exact (splits_trans _ _ _ _ _ (splits_trans _ _ _ _ _ S2 S3) (splits_trans _ _ _ _ _ Sm T1))|]. auto.
+Qed.
+
+(* ---- encode_key_path: leaf prefix, the prefix keys with their dots, the last key, leaf suffix ------------------- *)
+Definition kdpre (s : bytes) (k : key) : bytes := decor_prefix (k_dotted (tkey s k)) (fst DEFAULT_KEY_PATH_DECOR).
+Definition kdsuf (s : bytes) (k : key) : bytes := decor_suffix (k_dotted (tkey s k)) (snd DEFAULT_KEY_PATH_DECOR).
+Definition krepr (s : bytes) (k : key) : bytes := key_display_repr (tkey s k).
+
+Fixpoint mid_text (s : bytes) (ks : list key) (k' : key) : bytes :=
+  match ks with
+  | [] => [x2e] ++ kdpre s k'
+  | k :: r => [x2e] ++ kdpre s k ++ krepr s k ++ kdsuf s k ++ mid_text s r k'
+  end.
+Definition pre_text (s : bytes) (ks : list key) (k' : key) : bytes :=
+  match ks with
+  | [] => []
+  | k :: r => krepr s k ++ kdsuf s k ++ mid_text s r k'
+  end.
+
+Lemma loop_split s leaf D : forall ks k',
+  encode_key_path_loop leaf D false (map (tkey s) (ks ++ [k'])) = mid_text s ks k' ++ krepr s k' ++ decor_suffix leaf (snd D).
+Proof.
+  induction ks as [|k r IH]; intro k'.
+  - cbn [app map]. rewrite loop_cons. cbv iota. cbn [encode_key_path_loop mid_text]. unfold kdpre, krepr. rewrite app_nil_r, <- !app_assoc. reflexivity.
+  - change (map (tkey s) ((k :: r) ++ [k'])) with (tkey s k :: map (tkey s) (r ++ [k'])). rewrite loop_cons, IH.
+    assert (Hl : match map (tkey s) (r ++ [k']) with [] => true | _ => false end = false) by (rewrite map_app; destruct (map (tkey s) r); reflexivity).
+    rewrite Hl. cbn [mid_text]. unfold kdpre, kdsuf, krepr. rewrite <- !app_assoc. reflexivity.
+Qed.
+
+Theorem enc_split s ks k' D :
+  encode_key_path (map (tkey s) (ks ++ [k'])) D
+  = decor_prefix (k_leaf (tkey s k')) (fst D) ++ pre_text s ks k' ++ krepr s k' ++ decor_suffix (k_leaf (tkey s k')) (snd D).
+Proof.
+  assert (Er : rev (map (tkey s) (ks ++ [k'])) = tkey s k' :: rev (map (tkey s) ks)) by (rewrite map_app, rev_app_distr; reflexivity).
+  unfold encode_key_path. rewrite Er.
+  destruct ks as [|k r].
+  - cbn [app map pre_text]. rewrite loop_cons. cbv iota. cbn [encode_key_path_loop]. unfold krepr. rewrite app_nil_r. reflexivity.
+  - change (map (tkey s) ((k :: r) ++ [k'])) with (tkey s k :: map (tkey s) (r ++ [k'])). rewrite loop_cons, loop_split. cbv iota.
+    assert (Hl : match map (tkey s) (r ++ [k']) with [] => true | _ => false end = false) by (rewrite map_app; destruct (map (tkey s) r); reflexivity).
+    rewrite Hl. cbn [pre_text]. unfold kdsuf, krepr. rewrite <- !app_assoc. reflexivity.
+Qed.
+
+(* the text of the keys of a line is a key: prefix keys read from key paths, any last key with blank dotted decor *)
+Definition lkey (s : bytes) (k : key) : Prop :=
+  (exists t, repr_str (toraw s (k_repr k)) = Some t /\ simple_key_tok t (k_key k))
+  /\ blankraw s (d_prefix (k_dotted k)) /\ blankraw s (d_suffix (k_leaf k)).
+
+Lemma hkey_lkey s k : hkey s k -> lkey s k.
+Proof. intros (H1 & _ & H3 & H4 & _). split; [exact H1|]. auto. Qed.
+
+Lemma krepr_tok s k : lkey s k -> simple_key_tok (krepr s k) (k_key k).
+Proof. intros ((t & Hr & Ht) & _). unfold krepr, key_display_repr. rewrite tkey_fields. cbn [k_repr]. rewrite Hr. exact Ht. Qed.
+
+Lemma kdpre_ws s k : blankraw s (d_prefix (k_dotted k)) -> ws_tok (kdpre s k).
+Proof. intro H. unfold kdpre. rewrite tkey_fields. unfold decor_prefix, tdecor. cbn [k_dotted d_prefix]. apply (blank_encode s _ _ H ws_nil). Qed.
+Lemma kdsuf_ws s k : blankraw s (d_suffix (k_dotted k)) -> ws_tok (kdsuf s k).
+Proof. intro H. unfold kdsuf. rewrite tkey_fields. unfold decor_suffix, tdecor. cbn [k_dotted d_suffix]. apply (blank_encode s _ _ H ws_nil). Qed.
+
+Lemma mid_shape s : forall ks k', Forall (hkey s) ks -> lkey s k' ->
+  exists w t, ws_tok w /\ key_tok t (map k_key (ks ++ [k'])) /\ mid_text s ks k' ++ krepr s k' = [x2e] ++ w ++ t.
+Proof.
+  induction ks as [|k r IH]; intros k' HF Hk'.
+  - exists (kdpre s k'), (krepr s k'). split; [apply kdpre_ws, Hk'|]. split; [apply key_one, krepr_tok, Hk'|]. cbn [mid_text]. rewrite <- !app_assoc. reflexivity.
+  - inversion HF as [|? ? Hk HF']; subst. destruct (IH k' HF' Hk') as (w & t & Hw & Ht & E).
+    pose proof Hk as Hk0. destruct Hk as (Hr & _ & _ & Hdp & Hds).
+    exists (kdpre s k), (krepr s k ++ kdsuf s k ++ [x2e] ++ w ++ t). split; [apply kdpre_ws, Hdp|]. split.
+    + cbn [app map]. apply key_dot; [apply krepr_tok, hkey_lkey, Hk0|apply kdsuf_ws, Hds|exact Hw|exact Ht].
+    + cbn [mid_text]. rewrite <- !app_assoc. do 4 f_equal. rewrite <- ?app_assoc in E. exact E.
+Qed.
+
+Theorem pre_shape s ks k' : Forall (hkey s) ks -> lkey s k' ->
+  exists t, key_tok t (map k_key (ks ++ [k'])) /\ pre_text s ks k' ++ krepr s k' = t.
+Proof.
+  intros HF Hk'. destruct ks as [|k r].
+  - exists (krepr s k'). split; [apply key_one, krepr_tok, Hk'|reflexivity].
+  - inversion HF as [|? ? Hk HF']; subst. destruct (mid_shape s r k' HF' Hk') as (w & t & Hw & Ht & E).
+    pose proof Hk as Hk0. destruct Hk as (Hr & _ & _ & Hdp & Hds).
+    exists (krepr s k ++ kdsuf s k ++ [x2e] ++ w ++ t). split.
+    + cbn [app map]. apply key_dot; [apply krepr_tok, hkey_lkey, Hk0|apply kdsuf_ws, Hds|exact Hw|exact Ht].
+    + cbn [pre_text]. rewrite <- !app_assoc. do 2 f_equal. exact E.
+Qed.
+
+(* ---- two key texts in front of the same `=` ------------------------------------------------------------------------ *)
+Lemma key_text_unique tx px lx r1 ty py ly r2 :
+  key_tok tx px -> ws_tok lx -> key_tok ty py -> ws_tok ly ->
+  tx ++ lx ++ [x3d] ++ r1 = ty ++ ly ++ [x3d] ++ r2 -> tx ++ lx = ty ++ ly.
+Proof.
+  intros Hx Hlx Hy Hly E.
+  set (i := new_input (tx ++ lx ++ [x3d] ++ r1)).
+  assert (Sx : key_stop ([x3d] ++ r1)) by (eexists _, _; split; [reflexivity|left; reflexivity]).
+  assert (Sy : key_stop ([x3d] ++ r2)) by (eexists _, _; split; [reflexivity|left; reflexivity]).
+  destruct (key_raw_complete i [] tx px lx _ ws_nil Hx Hlx eq_refl Sx) as (p1 & E1 & _).
+  assert (Ri : rest i = [] ++ ty ++ ly ++ [x3d] ++ r2) by (unfold i; cbn [new_input rest app]; exact E).
+  destruct (key_raw_complete i [] ty py ly _ ws_nil Hy Hly Ri Sy) as (p2 & E2 & _).
+  assert (Ea : adv ([] ++ tx ++ lx) i = adv ([] ++ ty ++ ly) i) by congruence. cbn [app] in Ea.
+  assert (L : length (tx ++ lx) = length (ty ++ ly)) by (apply (f_equal pos) in Ea; rewrite !pos_adv in Ea; lia).
+  assert (E' : (tx ++ lx) ++ [x3d] ++ r1 = (ty ++ ly) ++ [x3d] ++ r2) by (rewrite <- !app_assoc; exact E).
+  apply (app_same_length _ _ _ _ E' L).
 Qed.
